@@ -417,6 +417,7 @@ void c15(Tape& t, Ctx& ctx) {
         if (via_temp) { OptU tmp(*pool[i]); pool[j].reset(new OptU(std::move(tmp))); }  // rvalue source: must behave like a copy (the temporary dies right away)
         else pool[j].reset(new OptU(*pool[i]));
         mod[j] = mod[i]; copied_from[j] = i; source_gone_or_mutated[j] = false;
+        VCHECK(ctx, (pool[j]->getOptimalSpline() == nullptr) == (pool[i]->getOptimalSpline() == nullptr), "copy-workspace-state", oname() << ": a copy-constructed optimizer exposes a built-in spline although its source has none (or vice versa)");
         break;
       }
       case 5: {  // copy-assign j = i (incl. self-assignment, assignment over an optimizer that owns a workspace, assignment from a temporary)
@@ -430,6 +431,12 @@ void c15(Tape& t, Ctx& ctx) {
         else if (how == 1) { on = "copy-assign(from temporary)"; *pool[j] = OptU(*pool[i]); }
         else { on = "copy-assign(chain)"; OptU tmp; tmp = *pool[i]; *pool[j] = tmp; }
         mod[j] = mod[i]; copied_from[j] = i; source_gone_or_mutated[j] = false;
+        // a copy is a copy of the source's state: it exposes a built-in spline exactly when the source does, and then the same one (by value)
+        VCHECK(ctx, (pool[j]->getOptimalSpline() == nullptr) == (pool[i]->getOptimalSpline() == nullptr), "copy-workspace-state",
+               oname() << ": after assignment (" << on << ") the target exposes " << (pool[j]->getOptimalSpline() ? "a" : "no") << " built-in spline but its source exposes " << (pool[i]->getOptimalSpline() ? "one" : "none") << " (a stale workspace of the target's previous problem?)");
+        if (pool[j]->getOptimalSpline())
+          VCHECK(ctx, pool[j]->getOptimalSpline() != pool[i]->getOptimalSpline() && mat_same_bits(pool[j]->getOptimalSpline()->getTrajectory().getCoefficients(), pool[i]->getOptimalSpline()->getTrajectory().getCoefficients()),
+                 "copy-workspace-state", oname() << ": after assignment the target's exposed spline is not a copy of the source's");
         break;
       }
       case 6: {  // destroy
@@ -472,8 +479,10 @@ void c15(Tape& t, Ctx& ctx) {
     }
     ctx.label(std::string("op:") + on);
     if (ctx.want_desc) ctx.desc << (op ? "," : "") << "\"" << on << "@" << i << "\"";
-    // after every op: probe every live, initialised optimizer
-    for (int k = 0; k < POOL && !ctx.failed; ++k) if (pool[k] && mod[k].inited) probe(k, op);
+    // after every op: probe live, initialised optimizers - each with probability 3/4, so that optimizers that were never evaluated
+    // (no built-in workspace yet) also occur as sources and targets of later copies (seeded C15-4)
+    uint32_t pm = t.raw();
+    for (int k = 0; k < POOL && !ctx.failed; ++k) if (pool[k] && mod[k].inited && ((pm >> (2 * k)) & 3u) != 0) probe(k, op);
   }
   if (ctx.want_desc) ctx.desc << "]";
   destroy_all();
